@@ -9,7 +9,7 @@ CHECKS = {
     'C07': dict(
         category='exploration',
         text=('Hypothesis-drawn class tables and histories of new / substitute_type / to_variance_free / to_type_variable_free / '
-              'instantiate_type_constructor / get_supertypes on a shared pool of type objects: supertypes of every result are compared, '
+              'instantiate_type_constructor / get_supertypes / new-from-the-argument-list-of-an-earlier-type followed by an in-place edit / rejected (wrong-arity) instantiation, on a shared pool of type objects; each new() is followed by the rebuilds through the constructor kept inside it: supertypes of every result are compared, '
               'transitively, with a reference substitution on immutable terms; after every operation every constructor, argument and '
               'earlier result is diffed structurally against a deep copy taken when it entered the pool; failing histories are shrunk.'),
         design_ref='DESIGN.md §3 C07',
@@ -19,7 +19,7 @@ CHECKS = {
     'C08': dict(
         category='exploration',
         text=('Every top-level call of instantiate_type_constructor / instantiate_parameterized_function is recorded as terms - while '
-              'Hypothesis drives the helpers over synthetic declarations x pools x pre-assignments x variance choices x switches, and while '
+              'Hypothesis drives the helpers over synthetic declarations x pools (IR types, or class declarations + builtins as the generator passes them) x pre-assignments x variance choices x switches, and while '
               'the real generator runs - and judged against post-conditions P1-P5 with the reference subtype relation.'),
         design_ref='DESIGN.md §3 C08',
         note='Effective variance choices follow the documented overrides; contravariant projection arguments are not judged against bounds.',
@@ -27,7 +27,7 @@ CHECKS = {
     ),
     'C09': dict(
         category='exploration',
-        text=('Top-level calls of find_subtypes / find_irrelevant_type recorded as terms on synthetic class tables (Hypothesis) and during '
+        text=('Top-level calls of find_subtypes / find_irrelevant_type recorded as terms on synthetic class tables (Hypothesis; queries include bounded type variables, variance-related heirs, contravariant projections; pools as types or declarations) and during '
               'real generation and TypeOverwriting; every result is judged with the reference relation (subtype / unrelated / include_self '
               '/ no bare generic class / nothing for the top type).'),
         design_ref='DESIGN.md §3 C09',
@@ -37,7 +37,7 @@ CHECKS = {
     'C10': dict(
         category='exploration',
         text=('Constructive (target, pattern) pairs: ground targets generalised into patterns with repeated / bounded / nested variables '
-              'and projections, perturbed non-unifiable variants, lone-variable patterns, supertype mode; every non-empty result is applied '
+              'and (nested) projections, perturbed non-unifiable variants (changed leaf, reused variable, violated bound, swapped constructor, nested supertype, conflicting bound over an earlier variable), lone-variable patterns against ground and type-variable targets, supertype mode; every non-empty result is applied '
               'to the pattern with the reference substitution and compared with the target (or its supertypes), bounds checked with RM; '
               'failures are shrunk by Hypothesis.'),
         design_ref='DESIGN.md §3 C10',
@@ -47,8 +47,8 @@ CHECKS = {
     'C12': dict(
         category='translation_validation',
         text=('Inventory of declarations, modifiers, bounds, variance, inheritance clauses, annotations, constructor / call type arguments '
-              'and literals computed from the IR is compared with name-anchored scans of the emitted text for stages G, E and O in the '
-              'program\'s own language (4 languages); backward check of declared classes; bracket / quote balance.'),
+              'and literals (string, char, integer, real, boolean) and binary operators computed from the IR is compared with name-anchored scans of the emitted text for stages G, E and O in the '
+              'program\'s own language (4 languages; generated programs plus hand-shaped ones - nested vararg functions, generic calls); backward check of declared classes; bracket / quote balance.'),
         design_ref='DESIGN.md §3 C12, §2.8',
         note='Scanners are regular-expression based and name-anchored (identifiers are unique); expressibility table in DESIGN.md.',
         technique='translation validation by independent text scanners against an IR inventory over generated programs',
@@ -65,7 +65,7 @@ CHECKS = {
     ),
     'C02': dict(
         category='translation_validation',
-        text=('Java translations of generated programs (stage G and after TypeErasure) are compiled by the installed javac alone and in '
+        text=('Java translations of generated programs and of Java-expressible hand-shaped programs (stage G and after TypeErasure) are compiled by the installed javac alone and in '
               'random batches mixed with type-overwriting victims; oracle: no error for a G/E file, and alone-verdict == batch-verdict.'),
         design_ref='DESIGN.md §3 C02',
         note='javac 17 is the judge; its own diagnostics are parsed by vlib/jd.py, not by src/compilers.',
@@ -73,7 +73,7 @@ CHECKS = {
     ),
     'C03': dict(
         category='exploration',
-        text=('TypeErasure applied once and twice to generated programs: structural before/after diff must stay inside the whitelist of '
+        text=('TypeErasure applied once and twice (plus further independent erasures of copies under other RNG seeds: other feasible subsets) to generated and hand-shaped programs: structural before/after diff must stay inside the whitelist of '
               'removable annotations, and the reference checker in inference mode (removed annotations replaced by what a compiler infers) '
               'must accept the result; Java results are additionally compiled by javac in C02.'),
         design_ref='DESIGN.md §3 C03',
@@ -102,7 +102,7 @@ CHECKS = {
     'C11': dict(
         category='exploration',
         text=('Hypothesis-drawn histories of translate / fresh-translator / set-package operations over a pool of generated, erased and '
-              'overwritten programs (plus the fixture programs with smart casts) and reusable translator objects of all four languages; '
+              'overwritten programs (plus the fixture programs with smart casts and hand-shaped programs with nested functions of up to 5 parameters) and reusable translator objects of all four languages; '
               'every text must equal the text first obtained from a fresh translator, and every touched program must be structurally '
               'unchanged against a deep copy taken before translation.'),
         design_ref='DESIGN.md §3 C11',
@@ -151,7 +151,7 @@ CHECKS = {
     'C18': dict(
         category='exploration',
         text=('Pipelines generate/translate/erase/translate/overwrite/translate over Hypothesis-drawn seeds, switches and limits in 4 '
-              'languages, in seed mode and in tape mode (Hypothesis owns every random choice, failures shrink); any exception is a '
+              'languages, in seed mode and in tape mode (Hypothesis owns every random choice, failures shrink), hand-shaped programs through the mutation stages, and long sessions (many programs generated in one process from a thinned identifier pool; a failure that does not reproduce in a fresh state is history-dependent); any exception is a '
               'violation bucketed by (stage, type, innermost repository frame); generator depth counter, generate_expr nesting and AST '
               'depth are bounded by functions of max_depth.'),
         design_ref='DESIGN.md §3 C18',
